@@ -133,7 +133,7 @@ fn check_p<T: PF>(c: &PCase) -> Outcome {
     }
     let mut rep_shift = false;
     let mut chk = |name: &'static str, got: Result<T, String>, exp: BigUint| {
-        let g = got.and_then(|x| guard(|| T::encode(x)));
+        let g = got.clone().and_then(|x| guard(|| T::encode(x)));
         let ok = match &g {
             Ok(bytes) => bytes.len() == T::enc_len() && pf::from_le(bytes) == exp,
             Err(_) => false,
@@ -143,6 +143,14 @@ fn check_p<T: PF>(c: &PCase) -> Outcome {
             || format!("C01:{}:{}", T::NAME, name),
             || format!("{name}: got {:?} expected {:x}", g.as_ref().map(|b| hex(b)), exp),
         );
+        // the result must also *behave* as the value it encodes to (an unreduced internal representation can encode
+        // correctly and still compare unequal): equals / iszero against the same value built canonically
+        if let (true, Ok(x)) = (ok, &got) {
+            let canon = T::decode_reduce(&pf::to_le(&exp, T::enc_len()), 0);
+            let x = *x;
+            let r = guard(|| (T::equals(x, canon), T::iszero(T::sub(x, canon, 0))));
+            acc.check(r.as_ref().ok() == Some(&(0xFFFFFFFFu32, 0xFFFFFFFFu32)), || format!("C01:{}:{}:representation", T::NAME, name), || format!("{name}: result encodes to {:x} but equals(canonical) / iszero(result - canonical) = {:?}", exp, r));
+        }
     };
     for (k, (el, iv)) in e.iter().zip(i.iter()).enumerate() {
         if k < 2 {
@@ -259,7 +267,7 @@ impl Property for C01 {
                     1 => any::<u32>(),
                 ];
                 // 1 case in 5: the first operand sits on the carry boundaries of the multiplication by x
-                let carry = prop_oneof![4 => Just(None), 1 => (prop::collection::vec(any::<u32>(), 9), prop::collection::vec(any::<u8>(), 9), 0u8..3).prop_map(Some)];
+                let carry = prop_oneof![4 => Just(None), 1 => (prop::collection::vec(any::<u32>(), 9), prop::collection::vec(any::<u8>(), 9), 0u8..5).prop_map(Some)];
                 let ns = prop_oneof![3 => 0u32..8, 1 => 8u32..300];
                 let nl = n;
                 let qq = q.clone();
@@ -269,7 +277,19 @@ impl Property for C01 {
                 let related = prop_oneof![4 => Just(None), 1 => (0u8..5, 0u32..3, 1u32..4).prop_map(Some)];
                 (first, others, ns, xs, any::<u8>(), any::<u8>(), carry, related)
                     .prop_map(move |(a, mut o, n, x, form, k, carry, related)| {
-                        let a = match carry { Some((js, ds, w)) if x >= 2 => gen::FV::limbs(gen::carry_limbs(x, nl, &js, &ds, w)), _ => a };
+                        let a = match carry {
+                            // widths 3, 4: the operand is t / 2^(64n) mod q with t = ceil(j*q/x) + d - 1 (j = 1..3): if the type keeps
+                            // its values in Montgomery representation (R = 2^(64n)), the internal value times x lands on a multiple of q
+                            Some((js, ds, w)) if x >= 2 && w >= 3 => {
+                                let j = 1 + js[0] % 3;
+                                let t = (&qq * j + (x - 1)) / x + (ds[0] % 4) as u32;
+                                let t = if t.is_zero() { t } else { t - 1u32 };
+                                let rinv = pf::inv(&((BigUint::one() << (64 * nl)) % &qq), &qq);
+                                gen::FV::limbs(gen::limbs_of(&(t * rinv % &qq), nl))
+                            }
+                            Some((js, ds, w)) if x >= 2 => gen::FV::limbs(gen::carry_limbs(x, nl, &js, &ds, w)),
+                            _ => a,
+                        };
                         // 1 case in 8: the first operand is the direct output of a unary operation (mul_small by a large
                         // constant, mul2..32, square, half, mul3) on another value: the internal limbs are then at the top of
                         // the range that operation can leave, which is what the next operation has to cope with
